@@ -7,9 +7,13 @@
    line per consumed line and is numbered from the quote's own line, (4) a list
    item's buffer is a prefix-aligned copy of the lines it consumed.  That these
    facts compose to "the recorded number is the index of the input line holding the
-   block's first character" for nested blocks is decided by the generator oracle. *)
+   block's first character" for nested blocks is decided by the generator oracle - and is
+   PROVED on the fragment of Spec/Fragment.v (C13_fragment_line_numbers): there every block,
+   at any depth, reports ln0 + the index of the line of the spelled text on which its first
+   character was written (pre_of / pre_seq place a block `height` + 1 lines after its
+   predecessor, exactly as spell / join_blank place its lines). *)
 From Coq Require Import ZArith List Bool.
-From Mistletoe Require Import Base.Sx Base.PyStr Gen.GenConfig Model.CoreTokens Model.Block Proofs.LineTags.
+From Mistletoe Require Import Base.Sx Base.PyStr Gen.GenConfig Model.CoreTokens Model.Block Proofs.LineTags Proofs.ListLaw Spec.Fragment Proofs.FragmentP.
 Import ListNotations.
 
 Theorem C13_entries_start_at_their_line : forall types rec n lines ln0 st es lo st',
@@ -32,3 +36,17 @@ Theorem C13_item_aligned : forall types leader after prepend buf_rev taken newli
   (length buf + taken <= n + length buf_rev)%nat /\ (n <= taken + length after)%nat.
 Proof. exact item_loop_aligned. Qed.
 Print Assumptions C13_item_aligned.
+
+(* on the fragment (plain paragraphs, quotes, single-item lists; any size and depth): the line numbers of ALL blocks, nested
+   ones included, are the positions at which the generator-side function `spell` wrote them *)
+Theorem C13_fragment_line_numbers : forall types t f ln st,
+  fragment_config types = true -> wf_b t = true -> (depth t <= f)%nat ->
+  fst (fst (tokenize_block types (S f) (text_of (spell t)) ln st)) = [pre_of ln t].
+Proof. intros. rewrite fragment_tree_cfg by assumption. reflexivity. Qed.
+Print Assumptions C13_fragment_line_numbers.
+
+(* where `spell` puts the lines of the k-th of several siblings: after the lines of its predecessors and one blank line each *)
+Theorem C13_fragment_sibling_offset : forall (t : ftree) (r : list ftree),
+  spell_seq (t :: r) = spell t ++ match r with [] => [] | _ => SBlank :: spell_seq r end.
+Proof. intros t [|t2 r]; unfold spell_seq; cbn [map join_blank flat_map]; [rewrite app_nil_r|]; reflexivity. Qed.
+Print Assumptions C13_fragment_sibling_offset.
